@@ -371,15 +371,8 @@ def parent_not_false(ctx, crate, crs, tag):
     # (3) run_sat encodes only true decisions / the solvable it just decided true
     rs = body_by_key(crate, SOLVER + "run_sat")
     if rs is not None:
-        cl = [c for c in crate.bodies if c.root and strip_generics(c.root) == SOLVER + "run_sat" and c.kind == "Closure"]
-        okv = False
-        for c in cl:
-            for i, j, s in c.assigns():
-                if s["p"]["l"] == 0 and s["r"]["k"] == "use":
-                    p = operand_place(s["r"]["o"])
-                    if p and any(isinstance(e, dict) and e.get("n") == "value" and e.get("of") == "resolvo::solver::decision::Decision"
-                                 for e in p.get("p", [])):
-                        okv = True
+        import c09
+        okv = c09.stack_filters(crate, crs)[0]
         ctx.ob(R, rs.key, "encodes-only-true-decisions", okv, rs.loc(), "new solvables are filtered on decision.value")
         # root encode happens right after deciding the root solvable true
         encs = rs.calls_to(ENC + "encode")
